@@ -246,6 +246,26 @@ claim('C09',
       'symbolic interpretation of window index maps and guards + exhaustive threshold-cell enumeration',
       'DESIGN.md §4 C09')
 
+claim('C06',
+      'Partial, static - decides the structural premises of the SOUNDNESS half (every reported distance is the '
+      'distance to an actual target, the one allocation and direction report, never above max_distance, 0 on '
+      'targets, NaN where unreached): X6 target test (non-zero finite / membership); X1 only the (pixel, line) of a '
+      'target or a remembered pair enters the per-column memory, rows with rows and columns with columns; X2 the '
+      'candidate set is exactly {pixel, pixel-step, pixel+step}, each block computes the distance from the coordinates '
+      'of the pair remembered at k and adopts that same pair (both halves, edge guards); X5 the update stores '
+      'sqrt(adopted squared distance) with that pair under max_distance^2 >= it, unreached cells become NaN; X3 four '
+      'sweeps (ascending rows then descending rows, forward and backward each), memory reset between passes, first '
+      'pass distances carried into the second; X4 allocation/direction read the pair stored by the same sweep '
+      '(reset before every sweep), 8 guarded output sites; X7 the bearing table of _calc_direction evaluated exactly '
+      'at 9 directions (0 self, 90 E, 180 S, 270 W, 360 N - notices e.g. an exact rad->deg constant collapsing north '
+      'onto 0). NOT decided (declined): the exactness half - that the propagation reaches the NEAREST target for every '
+      'layout and leaves no reachable cell NaN (a numerical property of the 4-sweep scheme).',
+      'Trusted: the paper argument from these provenance premises to soundness; math.atan2 for the table values. The '
+      'rules are structural patterns of this implementation (GDAL-style scheme); a different algorithm would be '
+      'reported as undecidable/violating rather than verified.',
+      'provenance / paired-update / sweep-structure rules on the line routine + exact bearing-table evaluation',
+      'DESIGN.md §4 C06')
+
 ALL = ['C%02d' % i for i in range(1, 20)]
 
 
